@@ -333,15 +333,20 @@ func (f *fields) setAt(idx int, parent, v value) {
 	l := len(f.a)
 	if idx >= l {
 		verifGrow(l, idx+1)
-		tmp := make([]value, idx+1)
-		copy(tmp, f.a)
+		if idx < cap(f.a) {
+			// room made by append (or left by a removal): every slot between
+			// the old end and idx is assigned below
+			f.a = f.a[:idx+1]
+		} else {
+			tmp := make([]value, idx+1)
+			copy(tmp, f.a)
+			f.a = tmp
+		}
 
 		for i := l; i < idx; i++ {
 			ctx := context{parent: parent, field: fmt.Sprintf("%d", i)}
-			tmp[i] = &cfgNil{cfgPrimitive{ctx, nil}}
+			f.a[i] = &cfgNil{cfgPrimitive{ctx, nil}}
 		}
-
-		f.a = tmp
 	}
 
 	f.a[idx] = v
@@ -352,6 +357,14 @@ func (f *fields) append(parent value, a []value) {
 	count := len(a)
 	if count == 0 {
 		return
+	}
+
+	if need := l + count; need > cap(f.a) {
+		// make room for all new elements at once: growing by one element at a
+		// time copies the list once per element
+		tmp := make([]value, l, need)
+		copy(tmp, f.a)
+		f.a = tmp
 	}
 
 	for i := 0; i < count; i, l = i+1, l+1 {
